@@ -38,7 +38,9 @@ def orders(maxsize):
 
 DIMS = {
     'order': None,      # filled in explore
-    'hist': ['model-first', 'contrib-first', 'full-first'],
+    # order of the three evaluation entry points on the fresh model (all 6), and the same after a first evaluation
+    # with other settings followed by a parameter update (upd-*)
+    'hist': ['mcf', 'cmf', 'fcm', 'mfc', 'cfm', 'fmc', 'upd-cfm', 'upd-fcm', 'upd-cmf', 'upd-mfc'],
     'species': [['H2O', 'CH4', 'CO2'], ['H2O'], ['CH4'], ['CO2'], ['H2O', 'CO2'], ['CH4', 'CO2'], ['H2O', 'CH4']],
     'abund': [[1e-4, 3e-5, 1e-5], [0.0, 3e-5, 1e-5], [1e-4, 0.0, 1e-5], [1e-4, 3e-5, 0.0], [1e-6, 1e-6, 1e-6],
               [1e-3, 1e-3, 1e-3], [0.0, 0.0, 0.0]],
@@ -128,8 +130,17 @@ def case_fn(case):
                 'contribution-list-restored', 'restore/' + where, now=[c.name for c in m.contribution_list], was=names0)
 
     res = {}
-    calls = {'model-first': ['model', 'contrib', 'full'], 'contrib-first': ['contrib', 'model', 'full'],
-             'full-first': ['full', 'contrib', 'model']}[case['hist']]
+    hist = case['hist']
+    if hist.startswith('upd-'):
+        # a first evaluation with a different fill ratio and planet mass, then the update to the settings every
+        # reference below assumes; nothing of the first evaluation may survive in what follows
+        hist = hist[4:]
+        m['He_H2'] = 0.9
+        m['planet_mass'] = 2.5
+        m.model()
+        m['He_H2'] = 0.17
+        m['planet_mass'] = 1.0
+    calls = [{'m': 'model', 'c': 'contrib', 'f': 'full'}[ch] for ch in hist]
     for call in calls:
         try:
             if call == 'model':
@@ -261,7 +272,7 @@ def case_fn(case):
             r.eq(T_model, np.array(tz, float), 'zero-abundance-neutral', 'zero-abundance', atol=1e-15, rtol=1e-12,
                  species=mol)
     # (vii) store_contributions
-    if case['hist'] == 'model-first':
+    if case['hist'] == 'mcf':
         from taurex.util.output import store_contributions
         from taurex.binning import FluxBinner
         binner = FluxBinner(np.array([1400.0, 3100.0]), np.array([1000.0, 2000.0]))
